@@ -121,3 +121,37 @@ Fixpoint unflatten_pe (l : list (N * N * option field_error)) : option param_err
   | [] => None
   | (t, c, fe) :: r => Some (ParamErr t c (unflatten_pe r) fe)
   end.
+
+(* ---- rendering of a status code (params.go: StatusCode.defaultText, used by StatusError.Error,
+        FieldError.Error, ParameterError.Error) -------------------------------------------------
+   defaultText picks a text table by the class helpers isMsgStatus .. isDeviceStatus and indexes
+   it with (code - first code of the class). An index outside the table is a Go run-time panic;
+   the model makes the index explicit so that "rendering is total" can be stated. What fmt and
+   string concatenation do with the pieces is not modelled (see notes/C12.md). *)
+Inductive text_ref :=
+| TSuccess                 (* "success" *)
+| TMsg (i : N)             (* statusMsgErrs[i],    13 entries: codes 100..112 *)
+| TParam (i : N)           (* statusParamErrs[i],  10 entries: codes 200..209 *)
+| TField (i : N)           (* statusFieldErrs[i],   2 entries: codes 300..301 *)
+| TDevice (i : N)          (* statusDeviceErrs[i],  1 entry:   code  401      *)
+| TUnknown (c : N).        (* "unknown LLRP status code " + decimal c *)
+
+Definition in_range (lo hi c : N) : bool := (lo <=? c) && (c <=? hi).
+
+Definition default_text_ref (c : N) : text_ref :=
+  if c =? StatusSuccess then TSuccess
+  else if in_range 100 112 c then TMsg (c - 100)
+  else if in_range 200 209 c then TParam (c - 200)
+  else if in_range 300 301 c then TField (c - 300)
+  else if in_range 401 401 c then TDevice (c - 401)
+  else TUnknown c.
+
+(* the table access does not go out of range (= no index panic) *)
+Definition ref_in_table (r : text_ref) : bool :=
+  match r with
+  | TMsg i => i <? 13
+  | TParam i => i <? 10
+  | TField i => i <? 2
+  | TDevice i => i <? 1
+  | TSuccess | TUnknown _ => true
+  end.
